@@ -40,7 +40,7 @@ Fixpoint split_on (sep : N) (l : bytes) (cur : bytes) : list bytes :=
 Definition split_us (l : bytes) : list bytes := split_on 95 l [].
 
 (* ---------- int(s, 16) on ASCII ---------- *)
-Definition is_space (b : N) : bool := ((9 <=? b) && (b <=? 13)) || ((28 <=? b) && (b <=? 32)).
+Definition is_space (b : N) : bool := ((9 <=? b) && (b <=? 13)) || (b =? 32).
 Fixpoint lstrip (l : bytes) : bytes :=
   match l with b :: t => if is_space b then lstrip t else l | [] => [] end.
 Definition strip (l : bytes) : bytes := rev (lstrip (rev (lstrip l))).
